@@ -9,4 +9,4 @@ CONSTANTS
   MaxQuery = 1
   Fault = "none"
   MaxLen = 1
-INVARIANTS TypeOK LogExactlyOnce StatsTotals DeniedLeavesNoTrace EffectOfSettings ViewSound
+INVARIANTS TypeOK LogExactlyOnce StatsTotals DeniedLeavesNoTrace EffectOfSettings ViewSound AttributionsAgree
